@@ -195,7 +195,7 @@ theorem frag_gsub2 (f : Font) (hf : FontOk f) (first : Bool) (cov : List Nat) (r
       SubStop (fun t => glyphItem f t = false) Safe Safe
       (fun t ht => ⟨by rcases ht with h | h | h <;> simp [h, tOr, tEOL, tEOF, tComma], subStop_noGlyph f t ht⟩)
       (fun t ht => comma_noGlyph f t ht) (fun _ h => h) safe_comma
-      (fun i line => ?_) rest [] p0 fuel hlenr ?_) ?_ (fun nx h => by simpa [nextRune, render] using h)
+      rest [] p0 fuel hlenr (fun i _ line => ?_) ?_) ?_ (fun nx h => by simpa [nextRune, render] using h)
         (fun line t ht => by simpa [mkToks] using ht)
     · -- first item of an entry is a glyph
       obtain ⟨typ, val, hw, hty⟩ := writeGlyph_isTok (newExplainer f) i.1
